@@ -21,6 +21,9 @@ EXPLANATION = (
   "(clock time, frames, clock time with frames) are accepted by the reader's time-expression patterns and their fields recovered; "
   "(FMT-list) list-valued attributes are split by the reader compatibly with the separator the writer joins with; (EXA) frame "
   "syntaxes are computed in exact rational arithmetic; (DSP-doc) every document parameter the reader sets is written by the writer."
+  " (TRAV) the scan that decides whether tts:extent is written on <tt> reaches the specified styles and the animation steps of every region and body element; has_px overrides compare units with px;"
+  " (SPECIAL-emit) a from_model method emits the keyword of a special value only under an identity test with that special value (or when every component is False), never under a truthiness test;"
+  " (STATE-alias / STATE-global) no function of the anchored modules mutates a module- or class-level container, rebinds module / class state or mutates a mutable default argument, so a result never depends on earlier calls;"
 )
 RULE_TEXT = "per element kind, per style property, per Enum member, per special-value access, per time syntax sample"
 UNDECIDED = ["snapshot equality after re-reading", "numeric precision of written lengths (:g formatting)", "font-family quoting round trip", "times move by less than one unit and never change order"]
